@@ -46,6 +46,8 @@ func (s Spec) Queue() func(int) int {
 	switch s.QueueKind {
 	case "sqrt":
 		return functions.SqrtRootFunction(s.QueueArg)
+	case "tenth": // a custom allowance that is 0 for small limits
+		return func(l int) int { return l / 10 }
 	default:
 		return functions.FixedQueueSizeFunc(s.QueueArg)
 	}
@@ -56,7 +58,7 @@ func (s Spec) Floor() int {
 	switch s.Kind {
 	case "gradient":
 		f := s.Min
-		if s.QueueArg > f {
+		if s.QueueArg > f && s.QueueKind != "tenth" {
 			f = s.QueueArg
 		}
 		if f < 1 {
